@@ -31,7 +31,7 @@ Fixpoint flat_items (dflt con : bool) (prefix : list string) (sm : meta) (sf : f
   | FCons k item rest =>
       let here : res (list task * lf) :=
         if negb con && negb (o_is_leaf o (kind_of A item)) then
-          bind (others_node A dflt sm sf others k) (fun others' =>
+          bind (others_node A dflt (stand_in A item) others k) (fun others' =>
           match item with
           | Node _ im g =>
               (* item._multithread_apply_flat(fn, *_others, default=…, named=…, nested_keys=…, prefix=…, is_leaf=…, …):
@@ -86,7 +86,10 @@ Definition rebuild_init (so : obj) (sm : meta) (sf : forest A) (out : option (tr
   bind (level_init A o so sm sf out) (fun i => Ok (match i with Some a => a | None => make_result A o sm names end)).
 
 (* a non-tensor entry: tensorclass._multithread_rebuild rebuilds the (empty) wrapped tensordict — into out[key] when
-   there is one — and re-wraps it with the data of self's entry *)
+   there is one — and re-wraps it with the data of self's entry.
+   DEFECT C20-g: the new entry carries the metadata of out[key], NonTensorData._apply_nest gives it those of self's entry.
+   When repaired (a rebuild that mirrors _apply_nest): [Ok (NonT New d (result_meta o im None))] in every branch that
+   returns, and the hypothesis [out <> None -> nont_free] of C20_mt_equals_st_partial can go. *)
 Definition nont_rebuild (d : Z) (im : meta) (out_k : option (tree A)) : res (tree A) :=
   match out_k with
   | None => Ok (NonT New d (result_meta o im None))
